@@ -19,44 +19,13 @@
 (*        (the pinned tree before the fix): `*` does not match "*a", and   *)
 (*        `\*` matches "\".                                                *)
 (***************************************************************************)
-EXTENDS Integers, Sequences, FiniteSets, TLC, Json
+EXTENDS Integers, Sequences, FiniteSets, TLC, Json, GlobOps
 
 CONSTANTS Alphabet,     \* set of byte values used to build patterns and strings
           MaxPat, MaxStr,
           Deviations
 
-STAR == 42
-BSL  == 92
-
 SeqsUpTo(S, n) == UNION {[1..k -> S] : k \in 0..n}
-
----------------------------------------------------------------------------
-(* Declarative level *)
-
-RECURSIVE WellFormed(_)
-WellFormed(p) ==
-  IF p = <<>> THEN TRUE
-  ELSE IF Head(p) = BSL THEN Len(p) >= 2 /\ WellFormed(SubSeq(p, 3, Len(p)))
-  ELSE WellFormed(Tail(p))
-
-RECURSIVE Tokens(_)
-Tokens(p) ==
-  IF p = <<>> THEN <<>>
-  ELSE IF Head(p) = BSL THEN <<[k |-> "lit", c |-> p[2]]>> \o Tokens(SubSeq(p, 3, Len(p)))
-  ELSE IF Head(p) = STAR THEN <<[k |-> "star", c |-> 0]>> \o Tokens(Tail(p))
-  ELSE <<[k |-> "lit", c |-> Head(p)]>> \o Tokens(Tail(p))
-
-RECURSIVE InLang(_, _)
-InLang(t, s) ==
-  IF t = <<>> THEN s = <<>>
-  ELSE IF Head(t).k = "star"
-       THEN \E n \in 0..Len(s) : InLang(Tail(t), SubSeq(s, n + 1, Len(s)))
-       ELSE s # <<>> /\ Head(s) = Head(t).c /\ InLang(Tail(t), Tail(s))
-
-\* The property-level observable of a (pattern, string) pair.
-Declarative(p, s) ==
-  IF ~WellFormed(p) THEN "reject"
-  ELSE IF InLang(Tokens(p), s) THEN "true" ELSE "false"
 
 ---------------------------------------------------------------------------
 (* Code-shaped level.  Indices are 0-based as in the Go code: pat[i+1].    *)
